@@ -65,6 +65,31 @@ fn selftest(thorough: bool) -> Result<(), String> {
         let p = gui::root_pos(&workload::root_cmd(r)).ok_or(format!("corpus root {} rejected by the model", r.name))?;
         let _ = p.legal_moves();
     }
+    for (root, line) in corpus::RIGHTS_LINES.iter().chain(corpus::PERPETUALS.iter()) {
+        let mut p = gui::root_pos(root).ok_or(format!("line root {} rejected by the model", root))?;
+        for m in line.split_ascii_whitespace() {
+            if !p.play(m) {
+                return Err(format!("corpus line `{}` from {}: move {} is not legal", line, root, m));
+            }
+        }
+    }
+    for (root, a, b) in corpus::MOVE_TWINS {
+        let mut pa = gui::root_pos(&if *root == "startpos" { "startpos".to_string() } else { format!("fen {}", root) }).ok_or("twin root")?;
+        let mut pb = pa.clone();
+        for m in a.split_ascii_whitespace() {
+            if !pa.play(m) {
+                return Err(format!("twin line A `{}`: move {} is not legal", a, m));
+            }
+        }
+        for m in b.split_ascii_whitespace() {
+            if !pb.play(m) {
+                return Err(format!("twin line B `{}`: move {} is not legal", b, m));
+            }
+        }
+        if pa.placement() != pb.placement() || pa.white_to_move() != pb.white_to_move() || pa.castling() != pb.castling() {
+            return Err(format!("twin lines `{}` / `{}` do not reach the same placement", a, b));
+        }
+    }
     for grp in corpus::SIBLINGS {
         for f in *grp {
             model::Pos::from_fen(f).map_err(|e| format!("sibling root {} rejected by the model: {}", f, e))?;
